@@ -268,8 +268,10 @@ register('C05',
          'that the revert is versioned like any other change is C01 on the recorded revert transaction. Histories are run on the real '
          'code, a version (first / middle / last / delete; entity live or deleted) and a relationship subset are chosen, revert + commit '
          'executed, and the live tables compared with the model and with the property clauses.',
-         COMMON_NOTE + 'Dotted relationship paths deeper than one level are not modelled nor generated (a cyclic dotted path over a '
-         'many-to-many pair is a suspected defect left undecided).',
+         COMMON_NOTE + 'Dotted relationship paths (tags.article, labels.articles, article.tags) are generated, but the revert model has '
+         'one level: for them only the clauses about the reverted entity itself (columns, named first-level sets, no error) and the '
+         'Layer-B correspondence of the whole run are judged; the effect on other entities reached through the nested path is not '
+         'modelled. A quarter of the cases revert a second time to the same version in the same session.',
          'Coq proof (equational reasoning on the revert function) + vm_compute correspondence against version.revert()',
          'DESIGN.md §7 C05')
 
